@@ -93,7 +93,7 @@ struct H {
     res: Vec<(u32, (u32, u32, u32))>,
     script: Vec<String>,     // human-readable replay
     spawned: bool,
-    n_unexpected: u64, n_failwrite: u64, n_early: u64, n_longdown: u64, n_replyclose: u64, n_huge: u64,
+    n_unexpected: u64, n_failwrite: u64, n_early: u64, n_longdown: u64, n_replyclose: u64, n_huge: u64, n_flood: u64, flood: bool,
 }
 
 fn be(x: u32) -> [u8; 4] { x.to_be_bytes() }
@@ -103,13 +103,14 @@ impl H {
     fn held(&self) -> Vec<usize> { (0..self.st.len()).filter(|&i| self.st[i] == St::Held).collect() }
     fn cur(&self) -> usize { self.frames.len() - 1 }
 
-    async fn send(&mut self, rng: &mut StdRng) -> R<()> {
+    async fn send(&mut self, rng: &mut StdRng) -> R<()> { self.send_sized(rng, false).await }
+    async fn send_sized(&mut self, rng: &mut StdRng, small: bool) -> R<()> {
         let id = self.handles.len() as u32;
         let mut p = be(id).to_vec();
         // Sizes: mostly tiny; some tens of kB; a few of 7 MB (the codec's limit is 8 MB). Two unread 7 MB frames exceed
         // what loopback socket buffers hold, so in an early-close round the real sender is then blocked inside
         // `writer.send` when the peer closes and takes its genuine write-error path (push_front, break).
-        let x = rng.gen_range(0, 100);
+        let x = if small { 50 } else { rng.gen_range(0, 100) };
         self.huge.push(x < 4);
         if x < 4 { p.resize(7_000_000, id as u8); self.n_huge += 1; }
         else { let pad = if x < 14 { rng.gen_range(1000, 40_000) } else { rng.gen_range(0, 64) }; p.extend((0..pad).map(|_| rng.gen::<u8>())); }
@@ -145,11 +146,19 @@ impl H {
         let id = rd(b, 0); let c = self.cur();
         self.frames[c].push(id); self.tl.push((3, c as u32 + 1, id));
     }
-    async fn read_frames(&mut self, n: usize) -> R<()> {
-        for _ in 0..n {
+    async fn read_frames(&mut self, n: usize) -> R<()> { self.read_frames_owed(n, &[]).await }
+    /// `owed`: the ids the sender owes on this connection, in hand-over order (checked frame by frame when given: a frame
+    /// with another id ends the script at once - the case is emitted with what was seen - instead of waiting for
+    /// frames that will never come, which would only look like a time-out).
+    async fn read_frames_owed(&mut self, n: usize, owed: &[usize]) -> R<()> {
+        for i in 0..n {
             match timeout(T_SYNC, self.conn.as_mut().unwrap().next()).await {
                 Err(_) => return Err(Stop::Inconclusive("timeout waiting for a frame".into())),
-                Ok(Some(Ok(b))) => self.record_frame(&b),
+                Ok(Some(Ok(b))) => {
+                    self.record_frame(&b);
+                    if let Some(&exp) = owed.get(i) { let got = rd(&b, 0); if got != exp as u32 {
+                        return Err(Stop::Abort(format!("frame with id {} received where id {} was owed (frame {} of {} on this connection)", got, exp, i, n))); } }
+                }
                 Ok(_) => return Err(Stop::Abort("end of stream while a frame was expected".into())),
             }
         }
@@ -239,6 +248,12 @@ async fn script(h: &mut H, rng: &mut StdRng) -> R<()> {
                     let held = h.held();
                     if held.is_empty() || rng.gen_bool(0.65) { h.send(rng).await?; } else { let j = held[rng.gen_range(0, held.len())]; h.drop_handle(j); }
                 }
+                if h.flood && h.n_flood == 0 {
+                    // flood: many small messages while the peer is unreachable, every handle kept: all of them are owed, in order
+                    let n = [700usize, 1500, 3000][rng.gen_range(0, 3)];
+                    for _ in 0..n { h.send_sized(rng, true).await?; }
+                    h.script.push(format!("flood: {} more messages while the peer is down", n)); h.n_flood += 1;
+                }
                 if rng.gen_bool(0.15) { sleep(Duration::from_millis(250)).await; h.script.push("stay down 250 ms".into()); h.n_longdown += 1; }
                 h.events.push("EConnFail".into());
                 h.bind().await?;
@@ -246,7 +261,7 @@ async fn script(h: &mut H, rng: &mut StdRng) -> R<()> {
         }
         h.accept().await?;
         let live = h.held().len();
-        let early = !last && live >= 1 && rng.gen_bool(0.3);
+        let early = !last && live >= 1 && live < 500 && rng.gen_bool(0.3);
         if early {
             let r = rng.gen_range(0, live);
             h.read_frames(r).await?;
@@ -262,7 +277,8 @@ async fn script(h: &mut H, rng: &mut StdRng) -> R<()> {
             h.close();
         } else {
             h.events.push("EConnOk None".into());
-            h.read_frames(live).await?;
+            let owed = h.held();
+            h.read_frames_owed(live, &owed).await?;
             for _ in 0..rng.gen_range(0, 7) {
                 let held = h.held();
                 let x = rng.gen_range(0, 10);
@@ -300,7 +316,7 @@ async fn reliable_case(seed: u64, k: usize, port_base: u16) -> CaseOut {
     let addr: SocketAddr = format!("127.0.0.1:{}", port).parse().unwrap();
     let mut h = H { addr, sender: ReliableSender::new(), handles: vec![], st: vec![], huge: vec![], listener: None, conn: None, frames: vec![], exact: vec![],
                     replied: 0, events: vec![], tl: vec![], res: vec![], script: vec![], spawned: false,
-                    n_unexpected: 0, n_failwrite: 0, n_early: 0, n_longdown: 0, n_replyclose: 0, n_huge: 0 };
+                    n_unexpected: 0, n_failwrite: 0, n_early: 0, n_longdown: 0, n_replyclose: 0, n_huge: 0, n_flood: 0, flood: k % 10 == 3 };
     let t0 = std::time::Instant::now();
     let outcome = script(&mut h, &mut rng).await;
     h.stray_resolutions();
@@ -318,7 +334,7 @@ async fn reliable_case(seed: u64, k: usize, port_base: u16) -> CaseOut {
         ("connections".to_string(), h.frames.len() as u64), ("messages".to_string(), h.st.len() as u64), ("handles dropped".to_string(), dropped.len() as u64),
         ("frames received".to_string(), total_frames as u64), ("retransmitted frames".to_string(), retrans as u64), ("resolutions".to_string(), h.res.len() as u64),
         ("early-close connections".to_string(), h.n_early), ("inferred failed writes (EConnOk (Some r))".to_string(), h.n_failwrite),
-        ("unrequested replies".to_string(), h.n_unexpected), ("long down periods".to_string(), h.n_longdown), ("reply-then-close".to_string(), h.n_replyclose), ("7 MB messages".to_string(), h.n_huge),
+        ("unrequested replies".to_string(), h.n_unexpected), ("long down periods".to_string(), h.n_longdown), ("reply-then-close".to_string(), h.n_replyclose), ("7 MB messages".to_string(), h.n_huge), ("floods (700..3000 messages while the peer is down)".to_string(), h.n_flood),
         ("aborted scripts".to_string(), if matches!(outcome, Err(Stop::Abort(_))) { 1 } else { 0 }),
     ];
     let replay = json!({"case": k, "port": port, "script": h.script, "events": h.events, "frames": h.frames, "exact": h.exact, "resolutions": h.res,
